@@ -63,6 +63,11 @@ def sLog (orc : Oracle) (s : SState) (lv : LevelArg) (M : Option Str) (lazy : Bo
   | .error e => .err e
   | .ok no => sLogTail orc s no M lazy
 
+/-- `remove()`: handlers go in registration order, up to and including the first whose `stop()` raises -/
+def removeAllS : List (Nat × Handler) → List (Nat × Handler) × Out
+  | [] => ([], .ok)
+  | h :: rest => if h.2.stopFails then (rest, .err .osError) else removeAllS rest
+
 def sAdd (s : SState) (a : AddArgs) : SState × Out :=
   let id := s.nextId
   let s := { s with nextId := s.nextId + 1 }
@@ -71,14 +76,18 @@ def sAdd (s : SState) (a : AddArgs) : SState × Out :=
   | .ok f =>
     match mkThreshold s.levels a.level with
     | .error e => (s, .err e)
-    | .ok t => ({ s with regs := s.regs ++ [(id, ⟨t, f⟩)] }, .id id)
+    | .ok t => ({ s with regs := s.regs ++ [(id, ⟨t, f, a.stopFails⟩)] }, .id id)
 
 def sPrim (orc : Oracle) (s : SState) : Op → SState × Out
   | .add a => sAdd s a
   | .remove id =>
-    if 0 ≤ id ∧ s.regs.any (fun h => h.1 == id.toNat)
-    then ({ s with regs := s.regs.filter (fun h => h.1 != id.toNat) }, .ok) else (s, .err .valueError)
-  | .removeAll => ({ s with regs := [] }, .ok)
+    -- a registered handler is unregistered whether or not its sink's stop() raises
+    if 0 ≤ id then
+      match s.regs.find? (fun h => h.1 == id.toNat) with
+      | some h => ({ s with regs := s.regs.filter (fun h => h.1 != id.toNat) }, stopOut h.2)
+      | none => (s, .err .valueError)
+    else (s, .err .valueError)
+  | .removeAll => ({ s with regs := (removeAllS s.regs).1 }, (removeAllS s.regs).2)
   | .removeBad => (s, .err .typeError)
   | .level name no other =>
     match levelDecision s.levels name no other with
